@@ -16,8 +16,8 @@ import (
 )
 
 var (
-	identifier     = regexp.MustCompile("^[A-Za-z]+[A-Za-z0-9]")
-	prefixVariable = regexp.MustCompile("{\\w*}")
+	identifier     = regexp.MustCompile("^[A-Za-z_][A-Za-z0-9_]*$")
+	prefixVariable = regexp.MustCompile("{[^{}]*}")
 	defaultPrefix  = &ScopePrefix{String: "", Variables: make([]string, 0)}
 )
 
